@@ -206,6 +206,21 @@ class Threadless(ABC, Generic[T]):
                         'KeyError when trying to register fd#{0}'.format(fileno),
                         exc_info=exc,
                     )
+        # Descriptors the work is no longer interested in (e.g. an upstream
+        # connection it has replaced) are forgotten, their numbers may
+        # come back with other sockets
+        for fileno in [
+                fd for fd in self.registered_events_by_work_ids.get(work_id, {})
+                if fd not in worker_events
+        ]:
+            try:
+                self.selector.unregister(fileno)
+            except (KeyError, ValueError, OSError):
+                pass
+            del self.registered_events_by_work_ids[work_id][fileno]
+            logger.debug(
+                'fd#{0} forgotten by work#{1}'.format(fileno, work_id),
+            )
 
     async def _update_conn_pool_events(self) -> None:
         if not self._upstream_conn_pool:
